@@ -1376,7 +1376,9 @@ class TOTP:
             issuer = None
         if label:
             # NOTE: KeyURI spec says there may be leading spaces
-            label = label.strip() or None
+            label = label.strip()
+        if not label:
+            raise cls._uri_parse_error("missing label")
 
         # parse query params
         params = dict(label=label)
